@@ -445,7 +445,10 @@ class Twist3(SMTwist):
             >>> t = Twist3([1, 2, 3, 4, 5, 6])
             >>> t.v
         """
-        return self.data[0][:3]
+        if len(self) == 1:
+            return self.data[0][:3]
+        else:
+            return np.array([x[:3] for x in self.data])
 
     @property
     def w(self):
@@ -466,7 +469,10 @@ class Twist3(SMTwist):
             >>> t.w
 
         """
-        return self.data[0][3:6]
+        if len(self) == 1:
+            return self.data[0][3:6]
+        else:
+            return np.array([x[3:6] for x in self.data])
 
     # -------------------- variant constructors ----------------------------#
 
@@ -791,7 +797,10 @@ class Twist3(SMTwist):
             >>> S.pitch()
 
         """
-        return np.dot(self.w, self.v)
+        if len(self) == 1:
+            return np.dot(self.w, self.v)
+        else:
+            return np.array([np.dot(x[3:6], x[:3]) for x in self.data])
 
     def line(self):
         """
@@ -855,7 +864,10 @@ class Twist3(SMTwist):
             >>> S = Twist3(T)
             >>> S.theta()
         """
-        return base.norm(self.w)
+        if len(self) == 1:
+            return base.norm(self.w)
+        else:
+            return np.array([base.norm(x[3:6]) for x in self.data])
 
     def exp(self, theta=None, units='rad'):
         """
@@ -900,7 +912,7 @@ class Twist3(SMTwist):
 
         if base.isscalar(theta):
             # theta is a scalar
-            return SE3(base.trexp(self.S * theta))
+            return SE3([base.trexp(S * theta) for S in self.data])
         else:
             # theta is a vector
             if len(self) == 1:
@@ -1253,7 +1265,10 @@ class Twist2(SMTwist):
             >>> t.v
 
         """
-        return self.data[0][:2]
+        if len(self) == 1:
+            return self.data[0][:2]
+        else:
+            return np.array([x[:2] for x in self.data])
 
     @property
     def w(self):
@@ -1274,7 +1289,10 @@ class Twist2(SMTwist):
             >>> t.w
 
         """
-        return self.data[0][2]
+        if len(self) == 1:
+            return self.data[0][2]
+        else:
+            return np.array([x[2] for x in self.data])
 
     # -------------------------  methods -------------------------------#
 
@@ -1369,7 +1387,7 @@ class Twist2(SMTwist):
             theta = base.getunit(theta, units)
 
         if base.isscalar(theta):
-            return SE2(base.trexp2(self.S * theta))
+            return SE2([base.trexp2(S * theta) for S in self.data])
         else:
             return SE2([base.trexp2(self.S * t) for t in theta])
 
